@@ -23,8 +23,12 @@ pub enum Op {
     Del { node: usize, ks: usize, key: u64, level: usize },
     DelMany { node: usize, ks: usize, keys: Vec<u64>, level: usize },
     Advance(u64),
+    /// advance to `offset_ms` after the next tick of the pollers (so that what follows overlaps a repair exchange)
+    ToPollerTick(u64),
     /// operations issued at the same instant and awaited together
     Together(Vec<Op>),
+    /// operations awaited together, the i-th one issued `i * gap_ms` after the first
+    Staggered { gap_ms: u64, ops: Vec<Op> },
 }
 
 #[derive(Debug, Clone)]
@@ -73,7 +77,9 @@ pub fn op_json(op: &Op) -> Value {
         Op::Del { node, ks, key, level } => json!({"del": key, "at_node": node + 1, "ks": ks, "level": level_name(*level)}),
         Op::DelMany { node, ks, keys, level } => json!({"del_many": keys, "at_node": node + 1, "ks": ks, "level": level_name(*level)}),
         Op::Advance(ms) => json!({"advance_ms": ms}),
+        Op::ToPollerTick(ms) => json!({"advance_to_ms_after_the_next_poller_tick": ms}),
         Op::Together(ops) => json!({"concurrently": ops.iter().map(op_json).collect::<Vec<_>>()}),
+        Op::Staggered { gap_ms, ops } => json!({"overlapping_started_ms_apart": gap_ms, "ops": ops.iter().map(op_json).collect::<Vec<_>>()}),
     }
 }
 
@@ -89,6 +95,9 @@ pub fn gen_op_or_group(src: &mut Src, n_nodes: usize, n_ks: usize, n_keys: u64) 
             }
         }
         if ops.len() >= 2 {
+            if src.chance(1, 2) {
+                return Op::Staggered { gap_ms: *src.pick(&[1u64, 5, 20, 100]), ops };
+            }
             return Op::Together(ops);
         }
         return ops.pop().unwrap_or(Op::Advance(0));
@@ -109,13 +118,19 @@ pub fn gen_op(src: &mut Src, n_nodes: usize, n_ks: usize, n_keys: u64) -> Op {
         }
         set.into_iter().collect()
     };
-    match src.weighted(&[5, 4, 2, 2, 4]) {
+    match src.weighted(&[5, 4, 2, 2, 3, 1]) {
         0 => Op::Put { node, ks, key: 1 + src.below64(n_keys), len, level },
         1 => Op::Del { node, ks, key: 1 + src.below64(n_keys), level },
         2 => Op::PutMany { node, ks, keys: keys(src), len, level },
         3 => Op::DelMany { node, ks, keys: keys(src), level },
-        _ => Op::Advance(*src.pick(&[0u64, 10, 300, 1_100, 2_500, 6_000])),
+        4 => Op::Advance(*src.pick(&[0u64, 10, 300, 1_100, 2_500, 6_000])),
+        _ => Op::ToPollerTick(src.below64(120)),
     }
+}
+
+thread_local! {
+    /// (moment the first node of the cluster was started, repair interval) of the case running on this thread
+    pub static POLLER_CLOCK: std::cell::Cell<Option<(tokio::time::Instant, Duration)>> = std::cell::Cell::new(None);
 }
 
 pub struct Cluster;
@@ -161,7 +176,7 @@ impl Prop for Cluster {
         let seed = src.word();
         let mut storage_latency_ms = BTreeMap::new();
         for (id, _) in &nodes {
-            let ms = *src.pick(&[0u64, 0, 0, 1, 4, 15]);
+            let ms = *src.pick(&[0u64, 0, 0, 1, 4, 15, 60, 250]);
             if ms > 0 {
                 storage_latency_ms.insert(*id, ms);
             }
@@ -188,10 +203,11 @@ impl Prop for Cluster {
     }
 
     fn rule(&self) -> &'static str {
-        "2-4 real DatacakeNodes (1-2 data centres, per-node clock skew up to 10 min, per-node storage latency 0-15 ms) with the real eventual-consistency \
+        "2-4 real DatacakeNodes (1-2 data centres, per-node clock skew up to 10 min, per-node storage latency 0-250 ms) with the real eventual-consistency \
          extension in one paused-time runtime; 1-12 operations put/put_many/del/del_many through the public handles at \
-         generated nodes, keyspaces, keys and consistency levels (one step in five issues 2-3 of them concurrently), \
-         interleaved with time advances of 0-6 s; every direct, \
+         generated nodes, keyspaces, keys and consistency levels (one step in five issues 2-3 of them concurrently, at once or 1-100 ms apart), \
+         interleaved with time advances of 0-6 s or to 0-119 ms after the next poller tick (operations overlapping a \
+         repair exchange); every direct, \
          batch and repair message gets a generated fate (deliver, drop request, drop reply, duplicate, delay up to 4 s); \
          then faults are cleared and 1 s + 3 repair intervals pass (every node completes a poller cycle with every peer); \
          oracle: on every node and keyspace the documents storage returns (ids, bytes, stamps) equal the LWW model \
@@ -211,6 +227,20 @@ pub fn ks_name(i: usize) -> String {
 
 pub async fn run_op(nodes: &[NodeH], op: &Op) -> Option<bool> {
     match op {
+        Op::Staggered { gap_ms, ops } => {
+            let futs: Vec<_> = ops
+                .iter()
+                .enumerate()
+                .map(|(i, o)| {
+                    Box::pin(async move {
+                        tokio::time::sleep(Duration::from_millis(gap_ms * i as u64)).await;
+                        run_op(nodes, o).await
+                    }) as std::pin::Pin<Box<dyn std::future::Future<Output = Option<bool>> + '_>>
+                })
+                .collect();
+            futures::future::join_all(futs).await;
+            None
+        },
         Op::Together(ops) => {
             let futs: Vec<_> = ops.iter().map(|o| Box::pin(run_op(nodes, o)) as std::pin::Pin<Box<dyn std::future::Future<Output = Option<bool>> + '_>>).collect();
             futures::future::join_all(futs).await;
@@ -231,6 +261,20 @@ pub async fn run_op(nodes: &[NodeH], op: &Op) -> Option<bool> {
         },
         Op::Advance(ms) => {
             e3::advance(*ms).await;
+            None
+        },
+        Op::ToPollerTick(offset) => {
+            // pollers tick 0.5 s after their node's extension was created and then at every multiple of the repair
+            // interval; the nodes of a cluster are created 20 ms apart
+            match POLLER_CLOCK.with(|c| c.get()) {
+                Some((t0, repair)) => {
+                    let r = repair.as_millis() as u64;
+                    let now = t0.elapsed().as_millis() as u64;
+                    let next = if now < 500 { 500 } else { ((now - 500) / r + 1) * r + 500 };
+                    e3::advance(next + offset - now).await;
+                },
+                None => e3::advance(*offset).await,
+            }
             None
         },
     }
@@ -373,7 +417,10 @@ fn check_converged_docs(nodes: &[NodeH], n_ks: usize, when: &str) -> Result<(), 
 
 async fn run(case: &Case, net: e3::Net) -> Outcome {
     let layout = Layout { nodes: case.nodes.clone(), repair_interval: Duration::from_secs(case.repair_secs), storage_latency_ms: case.storage_latency_ms.clone() };
+    let t_start = tokio::time::Instant::now();
     let nodes = e3::start_cluster(&layout).await;
+    // the first node's extension exists 20 ms after the start
+    POLLER_CLOCK.with(|c| c.set(Some((t_start + Duration::from_millis(20), Duration::from_secs(case.repair_secs)))));
     {
         let mut n = net.borrow_mut();
         n.direct = case.direct.iter().copied().collect();
@@ -386,7 +433,7 @@ async fn run(case: &Case, net: e3::Net) -> Outcome {
         if matches!(op, Op::PutMany { .. } | Op::DelMany { .. }) {
             bulk = true;
         }
-        if matches!(op, Op::Together(_)) {
+        if matches!(op, Op::Together(_) | Op::Staggered { .. }) {
             concurrent = true;
         }
         run_op(&nodes, op).await;
@@ -410,9 +457,13 @@ async fn run(case: &Case, net: e3::Net) -> Outcome {
         .filter(|n| n.store.inner.lock().log.iter().any(|(_, _, ts, _)| ts.node() == n.id))
         .map(|n| n.id)
         .collect();
+    POLLER_CLOCK.with(|c| c.set(None));
     let mut labels = vec![];
     if lost {
         labels.push("message_lost");
+    }
+    if case.ops.iter().any(|o| matches!(o, Op::ToPollerTick(_))) {
+        labels.push("ops_aligned_with_a_repair_cycle");
     }
     if dup {
         labels.push("dup_delivery");
